@@ -45,14 +45,12 @@ structure InvH (P : Params V) (T : Tables) (hw : HWorld V) : Prop where
   /-- nothing is disabled (a disabled observable's posts are lost, see `disable_loses_eviction`) -/
   nodis : hw.disabled = []
 
-/-- the operations the guarantee speaks about, in state `hw`: holds and releases but no disables; `Contour.move` only
-while nothing is held (its in-place patch under a hold has its own witness theorem, `move_is_direct_inside_hold`).
-Whatever `hstep` does not model while something is held (structural operations) answers `(err held)` and changes
-nothing. -/
-def HOp.okIn (hw : HWorld V) : HOp → Bool
+/-- the operations the guarantee speaks about: holds and releases, no disables (a disabled observable's posts are lost for
+good).  Whatever `hstep` does not model while something is held (structural operations, registrations) answers `(err held)`
+and changes nothing. -/
+def HOp.okIn (_hw : HWorld V) : HOp → Bool
   | .disable _ => false
   | .enable _ => false
-  | .base (.cmove _ _ _) => hw.quiet
   | _ => true
 
 end Repr
